@@ -214,15 +214,42 @@ static rnode* wrap_ctx(int cx, rnode* x) {
     default: n = rn_new(R_ARRAY); n->headw = 1; rn_add(n, small_leaf(0)); rn_add(n, x); return n;
   }
 }
+/* third family: every string length 0..320 (and a few large ones) and every member count 0..40 plus sign/width
+ * boundaries in the middle of the ranges (127/128/129, 255..257, 300), at top level and inside an array */
+static const size_t big_lens[] = {511, 512, 1000, 4095, 4096, 32767, 32768, 65535, 65536, 65537, 100000};
+static const size_t counts[] = {0, 1, 2, 3, 4, 5, 6, 7, 8, 9, 10, 11, 12, 13, 14, 15, 16, 17, 18, 19, 20, 21, 22, 23, 24, 25, 26, 27, 28, 29, 30, 31, 32, 33, 40,
+                                63, 64, 65, 100, 127, 128, 129, 200, 255, 256, 257, 300};
+#define NLEN (321 + sizeof big_lens / sizeof big_lens[0])
+#define NCNT (sizeof counts / sizeof counts[0])
+#define FAM3 ((uint64_t)(NLEN * 2 * 2 + NCNT * 4 * 2))
 uint64_t gen_systematic_count(void) {
   leaves_init();
-  return g_nleaves * NCTX + (uint64_t)NCTX * NCTX * 16;
+  return g_nleaves * NCTX + (uint64_t)NCTX * NCTX * 16 + FAM3;
+}
+static rnode* family3(uint64_t i) {
+  int ctx = (int)(i & 1);
+  i >>= 1;
+  rnode* n;
+  if (i < NLEN * 2) {
+    size_t li = (size_t)(i / 2);
+    size_t len = li <= 320 ? li : big_lens[li - 321];
+    n = mk_str((i & 1) ? R_TEXT : R_BYTES, len, 255, (int)(len % 3));
+    if ((i & 1) && len >= 2 && (len % 3) == 1) { for (size_t k = 0; k < len; k++) n->bytes[k] = (uint8_t)('a' + k % 26); } /* valid text too */
+  } else {
+    i -= NLEN * 2;
+    size_t c = counts[i / 4];
+    int kind = (int)(i % 4); /* 0 def array, 1 indef array, 2 def map, 3 indef map */
+    n = rn_new(kind < 2 ? R_ARRAY : R_MAP);
+    n->indef = (uint8_t)(kind & 1);
+    for (size_t k = 0; k < c * (kind < 2 ? 1 : 2); k++) rn_add(n, mk_int(R_UINT, 0, k % 24, 0));
+  }
+  return ctx ? wrap_ctx(1, n) : n;
 }
 rnode* gen_systematic(uint64_t idx) {
   leaves_init();
   if (idx < g_nleaves * NCTX) return wrap_ctx((int)(idx % NCTX), rn_clone(g_leaves[idx / NCTX]));
   idx -= g_nleaves * NCTX;
-  if (idx >= (uint64_t)NCTX * NCTX * 16) return NULL;
+  if (idx >= (uint64_t)NCTX * NCTX * 16) { idx -= (uint64_t)NCTX * NCTX * 16; return idx < FAM3 ? family3(idx) : NULL; }
   int c1 = (int)(idx % NCTX), c2 = (int)(idx / NCTX % NCTX);
   uint64_t li = idx / NCTX / NCTX; /* 0..15: pick a spread of leaves */
   rnode* leaf = rn_clone(g_leaves[(li * 2654435761u) % g_nleaves]);
